@@ -41,6 +41,32 @@ KANI_VM_JOIN = {'crate': 'kani/vm_k2', 'generate': asm_yaml.gen_kani_table, 'kin
     _h('join::join_1_2_1', _JOIN, 'parent memory 1 word, two children with 2 and 1 words; contents, gas, pcs, halt flags symbolic'),
     _h('join::join_0_1_0_2', _JOIN, 'empty parent memory, three children with 1, 0 and 2 words', 'thorough'),
     _h('join::join_2_0_0', _JOIN, 'parent 2 words, two children with empty memories', 'thorough')]}
+_SEL = 'Select: [.., a, b, cond] -> b if cond == 1, a if cond == 0 (operands popped, words below unchanged), InvalidCondition otherwise; error below 3 words'
+_STR = 'StoreRange: [.., v.., k, addr] stores the k words at memory[addr..addr+k], all other memory words and the length unchanged, operands popped; error and memory untouched when out of range / negative'
+_PAN = 'PanicIf: cond 0 continues (operand popped), cond 1 fails with Panic carrying the remaining stack, anything else InvalidPanicIfCondition'
+_EXT = 'Stack::extend appends the yielded words in order'
+_PDA = 'PredicateData pushes predicate_data[slot][ix..ix+len] in order; error and nothing pushed for negative / out-of-range slot, index, length'
+def _vm_ops(names):
+    allh = {
+        'select_len_3': _h('ops::select_len_3', _SEL, '3-word stack, all words symbolic'),
+        'select_len_2': _h('ops::select_len_2', _SEL, '2-word stack (too few operands)', 'thorough'),
+        'select_len_5': _h('ops::select_len_5', _SEL, '5-word stack, all words symbolic', 'thorough'),
+        'store_range_4_3': _h('ops::store_range_4_3', _STR, '4-word stack, 3-word memory, all words symbolic'),
+        'store_range_5_2': _h('ops::store_range_5_2', _STR, '5-word stack, 2-word memory, all words symbolic', 'thorough'),
+        'store_range_2_0': _h('ops::store_range_2_0', _STR, '2-word stack, empty memory', 'thorough'),
+        'panic_if_len_1': _h('ops::panic_if_len_1', _PAN, '1-word stack, symbolic'),
+        'panic_if_len_0': _h('ops::panic_if_len_0', _PAN, 'empty stack', 'thorough'),
+        'panic_if_len_4': _h('ops::panic_if_len_4', _PAN, '4-word stack, symbolic', 'thorough'),
+        'extend_small': _h('ops::extend_small', _EXT, '2-word stack extended by a 3-word array, symbolic'),
+        'predicate_data_2_slots': _h('ops::predicate_data_2_slots', _PDA, 'one solution with slots of 2 and 1 words, 4-word stack, all words symbolic'),
+    }
+    return {'crate': 'kani/vm_k2', 'generate': asm_yaml.gen_kani_table, 'kind': 'bounded', 'parallel': 6, 'timeout_s': 900, 'mem_gb': 12,
+            'harnesses': [allh[n] for n in names]}
+KANI_VM_OPS_ALL = _vm_ops(['select_len_3', 'store_range_4_3', 'panic_if_len_1', 'extend_small', 'predicate_data_2_slots', 'select_len_2', 'select_len_5',
+                           'store_range_5_2', 'store_range_2_0', 'panic_if_len_0', 'panic_if_len_4'])
+KANI_VM_OPS_DATA = _vm_ops(['select_len_3', 'store_range_4_3', 'extend_small', 'select_len_2', 'select_len_5', 'store_range_5_2', 'store_range_2_0'])
+KANI_VM_OPS_CF = _vm_ops(['panic_if_len_1', 'panic_if_len_0', 'panic_if_len_4'])
+KANI_VM_OPS_ACCESS = _vm_ops(['predicate_data_2_slots', 'extend_small'])
 KANI_ASM_EFFECTS = {'crate': 'kani/asm_k1', 'generate': asm_yaml.gen_kani_table, 'kind': 'complete', 'harnesses': [
     {'name': 'proofs::effects_api', 'claim': 'bitflags-generated Effects API (empty/all/bits/contains/union/|=/==, flag constants) has its documented bit-level meaning'}]}
 KANI_ASM_ANALYZE = {'crate': 'kani/asm_k1', 'generate': asm_yaml.gen_kani_table, 'kind': 'bounded', 'harnesses': [
@@ -54,18 +80,18 @@ KANI_ASM_CODEC = {'crate': 'kani/asm_k1', 'generate': asm_yaml.gen_kani_table, '
     {'name': 'proofs::decode_then_encode_9', 'tier': 'thorough', 'claim': 'all [u8; 9]: parse fails exactly per asm.yml or yields the op asm.yml names for that byte, which serialises to exactly the consumed bytes'}]}
 
 PROPS = {
-    'C05': {'level': 'proof', 'verus_units': ['vm_core'],
+    'C05': {'level': 'proof', 'verus_units': ['vm_core'], 'kani': [KANI_VM_OPS_ALL],
             'explanation': 'VM totality / resource bounds: every function of the synchronous VM core carries vm_wf-style '
                            'pre/postconditions and is verified by Verus, which also generates the no-overflow / in-bounds / no-panic goals.'},
-    'C08': {'level': 'proof', 'verus_units': ['vm_core'],
+    'C08': {'level': 'proof', 'verus_units': ['vm_core'], 'kani': [KANI_VM_OPS_DATA],
             'explanation': 'per-op functional contracts against spec functions written from asm.yml'},
-    'C09': {'level': 'proof', 'verus_units': ['vm_core'],
+    'C09': {'level': 'proof', 'verus_units': ['vm_core'], 'kani': [KANI_VM_OPS_CF],
             'explanation': 'control flow / repeat / eval contracts'},
     'C07': {'level': 'proof', 'verus_units': ['vm_core'],
             'explanation': 'Vm::exec loop invariant over a ghost trace of visited pcs and child gas: exact sum, <= limit, no overflow, out-of-gas raised before step_op, termination variant for positive costs'},
     'C11': {'level': 'proof', 'verus_units': ['vm_core'],
             'explanation': 'state-read ops: operand popping, view/contract routing, memory layout (layout_k), frame'},
-    'C12': {'level': 'proof', 'verus_units': ['vm_core'],
+    'C12': {'level': 'proof', 'verus_units': ['vm_core'], 'kani': [KANI_VM_OPS_ACCESS],
             'explanation': 'access ops against spec functions; crypto marshalling assumed'},
     'C06': {'level': 'proof', 'verus_units': ['types_core', 'check_core'],
             'explanation': 'decoders / validators / graph helpers carry no precondition on the untrusted argument; Verus discharges every index, slice, unwrap/expect, arithmetic obligation'},
